@@ -454,7 +454,7 @@ def _uraise(v):
 
 
 def _even(v):
-    if type(v) is not int:
+    if not isinstance(v, int) or isinstance(v, bool):      # (an instance of a subclass of int is an int)
         raise TypeError('even: not an int')
     return v % 2 == 0
 
@@ -516,6 +516,51 @@ def concretise_type(T: dict, sp: int = 0, lit_ok: bool = True) -> t.Any:
     return r
 
 
+def _ix(G, params):
+    """G[params] without typing's subscription cache: the cache compares arguments with ==, and
+    Union[A, B] == Union[B, A], so List[Union[B, A]] would come back as an earlier List[Union[A, B]]."""
+    g = getattr(G, '__getitem__', None)
+    w = getattr(g, '__wrapped__', None)
+    r = w(G, params) if w is not None else G[params]
+    want = params if isinstance(params, tuple) else (params,)
+    got = t.get_args(r)
+    if want != () and (len(got) != len(want) or any(a is not b for a, b in zip(got, want))):
+        raise OutOfVocab('typing does not keep the arguments as written')
+    return r
+
+
+def _flat_union_args(alts):
+    out = []
+    for a in alts:
+        for x in (t.get_args(a) if t.get_origin(a) is t.Union else (a,)):
+            if not any(x is y for y in out):
+                out.append(x)
+    return out
+
+
+def _ix_union(alts, optional=False):
+    """Union[alts] with the member order as written (see _ix)."""
+    if len(alts) == 1:
+        return alts[0]
+    w = getattr(t.Union.__getitem__, '__wrapped__', None)
+    r = w(t.Union, tuple(alts)) if w is not None else t.Union[tuple(alts)]
+    want = _flat_union_args(alts)
+    got = t.get_args(r) if t.get_origin(r) is t.Union else (r,)
+    if len(got) != len(want) or any(a is not b for a, b in zip(got, want)):
+        raise OutOfVocab('typing does not keep the union members as written')
+    return r
+
+
+def _ix_annotated(inner, cs):
+    r = t.Annotated[(inner, *cs)]
+    base = inner.__origin__ if isinstance(inner, t._AnnotatedAlias) else inner
+    if r.__origin__ is not base:
+        r = t._AnnotatedAlias(base, (*(inner.__metadata__ if isinstance(inner, t._AnnotatedAlias) else ()), *cs))
+    if r.__origin__ is not base:
+        raise OutOfVocab('typing does not keep the annotated type as written')
+    return r
+
+
 def _concretise_type(T: dict, sp: int, lit_ok: bool = True) -> t.Any:
     k = T['k']
     if k in _SCALARS:
@@ -530,40 +575,40 @@ def _concretise_type(T: dict, sp: int, lit_ok: bool = True) -> t.Any:
         return opts[sp % len(opts)]()
     if k == 'list':
         E = sub(T['e'])
-        return pick([E], [lambda: t.List[E], lambda: list[E], lambda: t.MutableSequence[E], lambda: collections.abc.MutableSequence[E]], 1)
+        return pick([E], [lambda: _ix(t.List, (E,)), lambda: list[E], lambda: _ix(t.MutableSequence, (E,)), lambda: collections.abc.MutableSequence[E]], 1)
     if k == 'tuplevar':
         E = sub(T['e'])
-        return pick([E], [lambda: t.Tuple[E, ...], lambda: tuple[E, ...], lambda: t.Sequence[E], lambda: collections.abc.Sequence[E]], 1)
+        return pick([E], [lambda: _ix(t.Tuple, (E, ...)), lambda: tuple[E, ...], lambda: _ix(t.Sequence, (E,)), lambda: collections.abc.Sequence[E]], 1)
     if k == 'set':
         E = sub(T['e'])
-        return pick([E], [lambda: t.Set[E], lambda: set[E], lambda: t.MutableSet[E]], 1)
+        return pick([E], [lambda: _ix(t.Set, (E,)), lambda: set[E], lambda: _ix(t.MutableSet, (E,))], 1)
     if k == 'frozenset':
         E = sub(T['e'])
-        return pick([E], [lambda: t.FrozenSet[E], lambda: frozenset[E], lambda: t.AbstractSet[E]], 1)
+        return pick([E], [lambda: _ix(t.FrozenSet, (E,)), lambda: frozenset[E], lambda: _ix(t.AbstractSet, (E,))], 1)
     if k == 'deque':
         E = sub(T['e'])
-        return pick([E], [lambda: t.Deque[E], lambda: collections.deque[E]], 1)
+        return pick([E], [lambda: _ix(t.Deque, (E,)), lambda: collections.deque[E]], 1)
     if k == 'tuple':
         es = tuple(sub(e) for e in T['es'])
         if len(es) == 0:
-            return [t.Tuple[()], tuple[()], ()][sp % 3 if lit_ok else sp % 2]
+            return [_ix(t.Tuple, ()), tuple[()], ()][sp % 3 if lit_ok else sp % 2]
         if not lit_ok:
-            return pick(es, [lambda: t.Tuple[es], lambda: tuple[es]], 1)
+            return pick(es, [lambda: _ix(t.Tuple, es), lambda: tuple[es]], 1)
         if sp % 3 == 2:
             return es
-        return pick(es, [lambda: t.Tuple[es], lambda: tuple[es]], 1)
+        return pick(es, [lambda: _ix(t.Tuple, es), lambda: tuple[es]], 1)
     if k == 'dict':
         K, V = sub(T['kt']), sub(T['vt'])
-        return pick([K, V], [lambda: t.Dict[K, V], lambda: dict[K, V], lambda: t.Mapping[K, V], lambda: t.MutableMapping[K, V], lambda: collections.abc.Mapping[K, V]], 1)
+        return pick([K, V], [lambda: _ix(t.Dict, (K, V)), lambda: dict[K, V], lambda: _ix(t.Mapping, (K, V)), lambda: _ix(t.MutableMapping, (K, V)), lambda: collections.abc.Mapping[K, V]], 1)
     if k == 'defaultdict':
         K, V = sub(T['kt']), sub(T['vt'])
-        return pick([K, V], [lambda: t.DefaultDict[K, V], lambda: collections.defaultdict[K, V]], 1)
+        return pick([K, V], [lambda: _ix(t.DefaultDict, (K, V)), lambda: collections.defaultdict[K, V]], 1)
     if k == 'ordereddict':
         K, V = sub(T['kt']), sub(T['vt'])
-        return pick([K, V], [lambda: t.OrderedDict[K, V], lambda: collections.OrderedDict[K, V]], 1)
+        return pick([K, V], [lambda: _ix(t.OrderedDict, (K, V)), lambda: collections.OrderedDict[K, V]], 1)
     if k == 'counter':
         K = sub(T['kt'])
-        return pick([K], [lambda: t.Counter[K], lambda: collections.Counter[K]], 1)
+        return pick([K], [lambda: _ix(t.Counter, (K,)), lambda: collections.Counter[K]], 1)
     if k == 'struct':
         return {text(f[0]): sub(f[1]) for f in T['fs']}
     if k == 'union':
@@ -573,10 +618,10 @@ def _concretise_type(T: dict, sp: int, lit_ok: bool = True) -> t.Any:
                 raise OutOfVocab('type literal inside typing.Union')
         v = sp % 3
         if v == 1 and len(alts) == 2 and alts[1] is type(None):
-            return t.Optional[alts[0]]
+            return _ix_union((alts[0], type(None)), optional=True)
         if v == 2 and len(alts) >= 3:
-            return t.Union[t.Union[alts[0], alts[1]], t.Union[tuple(alts[2:])]]
-        return t.Union[tuple(alts)]
+            return _ix_union((_ix_union((alts[0], alts[1])), _ix_union(tuple(alts[2:]))))
+        return _ix_union(tuple(alts))
     if k == 'lit':
         return t.Literal[tuple(concretise(v) for v in T['vs'])]
     if k == 'enum':
@@ -595,8 +640,8 @@ def _concretise_type(T: dict, sp: int, lit_ok: bool = True) -> t.Any:
             raise OutOfVocab('type literal inside Annotated')
         cs = [concretise_cond(c, sp) for c in T['cs']]
         if sp % 2 == 1 and len(cs) >= 2:
-            return t.Annotated[(t.Annotated[inner, cs[0]], *cs[1:])]
-        return t.Annotated[(inner, *cs)]
+            return _ix_annotated(_ix_annotated(inner, cs[:1]), cs[1:])
+        return _ix_annotated(inner, cs)
     if k == 'sub':
         name = T['name']
         cls = SUB_CLASSES.get(name)
@@ -619,7 +664,7 @@ def _concretise_type(T: dict, sp: int, lit_ok: bool = True) -> t.Any:
         vs = [sub(v) for v in T['vars']]
         lay = T['lay']
         ext: t.Any = False if lay == 'int' else True if lay == 'ext' else (text(T['tk']), text(T['ck']))
-        return t.Annotated[t.Union[tuple(vs)], Tagged(text(T['tag']), ext)]
+        return _ix_annotated(_ix_union(tuple(vs)), [Tagged(text(T['tag']), ext)])
     if k == 'cls':
         if T['hook']['k'] == 'rangehook':       # the shipped pane.types.Range, parameterized by its number type
             return _ptypes.Range[{'int': int, 'float': float}[T['fs'][0]['t']['k']]]
